@@ -12,21 +12,6 @@ import (
 	"verif/vk"
 )
 
-func tempShellDir() (string, func(), error) {
-	base := os.Getenv("VK_OUT")
-	if base == "" {
-		base = os.TempDir()
-	}
-	dir, err := os.MkdirTemp(base, "shellwork-")
-	if err != nil {
-		return "", nil, err
-	}
-	if err := shellDir(dir); err != nil {
-		return "", nil, err
-	}
-	return dir, func() { os.RemoveAll(dir) }, nil
-}
-
 // significant: the 24 shell-significant bytes + 'a' + a non-ASCII byte.
 var significant = []byte("|&;<>()$`\\\"' \t\n*?[#~=%" + "{}!]" + "a\x80")
 
@@ -213,6 +198,15 @@ func TestC15Shells(t *testing.T) {
 	}
 	root := filepath.Join(h.OutDir, "shellwork")
 	defer os.RemoveAll(root)
+	for _, sh := range shells {
+		d := filepath.Join(root, "selftest")
+		if err := shellDir(d); err != nil {
+			t.Fatalf("VK-INFRA %v", err)
+		}
+		if err := shellSelfTest(sh, d); err != nil {
+			t.Fatalf("VK-INFRA real-shell oracle self-test failed: %v", err)
+		}
+	}
 	tl := vk.NewTally()
 	var mu sync.Mutex
 	const batch = 4000
@@ -402,6 +396,15 @@ func TestC16Shells(t *testing.T) {
 	}
 	root := filepath.Join(h.OutDir, "shellwork")
 	defer os.RemoveAll(root)
+	for _, sh := range shells {
+		d := filepath.Join(root, "selftest")
+		if err := shellDir(d); err != nil {
+			t.Fatalf("VK-INFRA %v", err)
+		}
+		if err := shellSelfTest(sh, d); err != nil {
+			t.Fatalf("VK-INFRA real-shell oracle self-test failed: %v", err)
+		}
+	}
 	tl := vk.NewTally()
 	var mu sync.Mutex
 	const batch = 4000
